@@ -16,16 +16,16 @@ REQUIRED = (["%s.geocentric_position" % p for p in PLANETS]
                "Minor.__init__", "Minor.set", "Minor._near_parabolic", "Minor.geocentric_position",
                "Minor.heliocentric_ecliptical_position"])
 THEOREMS = ["C09_final_stage_direction", "C09_elongation_range", "C09_elongation_cos", "C09_corrections_small",
-            "C09_minor_set", "C09_minor_set_parabolic", "C09_minor_gauss"]
+            "C09_minor_set", "C09_minor_set_parabolic", "C09_minor_gauss"] + ["C09_light_time_%s" % p for p in PLANETS]
 PROOF_TIMEOUT = {"quick": 2000, "thorough": 3000}
 EXHAUSTIVE = False
 MANIFEST = {
     "category": "proof",
-    "text": "Ideal-instance theorems about the GENERATED Minor.set (Gauss constants a,b,c,A,B,C, semi-major axis in both regimes of |e-1| <= tol, mean motion) + spec theorem that these constants rotate (r,u) into equatorial J2000 coordinates; spec-level theorems for the final stage of <Planet>.geocentric_position (lambda/beta are the direction of (x,y,z); elongation = acos(cos b cos(l-lsun)) in [0,180] and is the angle to the Sun; aberration+FK5+nutation <= 0.02 deg for |beta| <= 25 deg); bit-exact correspondence on planet/Pluto/Minor calls; search oracle recomputing every direction from the library's own heliocentric vectors (planets), the re-evaluated Meeus series (Pluto) and an independent two-body propagation (minor bodies).",
+    "text": "Ideal-instance theorems about the GENERATED bodies of all seven <Planet>.geocentric_position (light-time stage with the heliocentric-position callees and Epoch.__isub__ abstracted: both bodies taken at the caller's epoch, tau = 0.0057755183*distance, epoch - tau requested) and about the GENERATED Minor.set (Gauss constants a,b,c,A,B,C, semi-major axis in both regimes of |e-1| <= tol, mean motion) + spec theorem that these constants rotate (r,u) into equatorial J2000 coordinates; spec-level theorems for the final stage of <Planet>.geocentric_position (lambda/beta are the direction of (x,y,z); elongation = acos(cos b cos(l-lsun)) in [0,180] and is the angle to the Sun; aberration+FK5+nutation <= 0.02 deg for |beta| <= 25 deg); bit-exact correspondence on planet/Pluto/Minor calls; search oracle recomputing every direction from the library's own heliocentric vectors (planets), the re-evaluated Meeus series (Pluto) and an independent two-body propagation (minor bodies).",
     "technique": "pyrun symbolic evaluation of the regenerated model in the real-number instance + real analysis (atan2/acos lemmas, interval) + bit-exact differential correspondence + oracle search",
     "design_ref": "8/C09",
 }
-EXPLANATION = ("The model of the 16 modules is regenerated from /repo. Minor.set of the regenerated model is evaluated symbolically "
+EXPLANATION = ("The model of the 16 modules is regenerated from /repo. The light-time stage of each of the seven generated geocentric_position bodies is evaluated symbolically with its callees abstracted (C09_light_time_<Planet>). Minor.set of the regenerated model is evaluated symbolically "
                "in the real-number instance for all q > 0, e < 1 - tol and |e-1| <= tol, any orientation (theorems C09_minor_set*), and "
                "the stored Gauss constants are proved to be the rotation of the orbital-plane vector into the J2000 equator (C09_minor_gauss). "
                "For the planets the final stage (direction, elongation, size of aberration+FK5+nutation) is proved for hand-written closed forms "
@@ -36,7 +36,8 @@ CLAUSES = {
     "planets: lambda, beta are the direction of (x,y,z) (atan2 quadrants)": "proved [spec: final_stage_direction]",
     "planets: elongation = acos(cos beta cos(lambda - lambda_sun)) lies in [0,180] and is the angle between the direction and the Sun (latitude 0)": "proved [spec]",
     "planets: aberration + FK5 + nutation <= 0.02 deg for |beta|, |B| <= 25 deg, |T| <= 40 centuries, |dpsi| <= 19.03 arcsec": "proved [spec: closed forms of the generated body, interval]",
-    "planets: the generated geocentric_position bodies compute these closed forms from planet(epoch - tau) - Earth(epoch)": "unproved (searched): symbolic evaluation of the 60-statement generated body with 14 abstracted callees did not finish within 15 min; tied by bit-exact correspondence (16 planet calls per run) and the direction search",
+    "planets (all 7 generated bodies): light-time stage - planet and Earth taken at the caller's epoch with tofk5=False, tau = 0.0057755183*|planet - Earth|, epoch - tau requested from Epoch.__isub__ on the caller's Epoch value": "proved [ideal, generated code, callees abstracted: C09_light_time_<Planet>]",
+    "planets: the rest of the generated body (second pass, atan2 stage, aberration/FK5/nutation, elongation) computes the spec closed forms": "unproved (searched): symbolic evaluation of the remaining ~45 statements with 14 abstracted callees ran out of memory/time (20 min, OOM) in this environment; tied by bit-exact correspondence (9 planet calls per quick run), the direction search and the auxiliary 0.002 deg apparent-place check",
     "planets: Sun/nutation/obliquity evaluated at epoch - tau (not the epoch of observation)": "refuted for the property text by search: known finding elongation-sun-at-light-time-epoch (up to 0.17 deg for Neptune); the formula itself is checked against the Sun at epoch - tau under key elongation-formula",
     "caller's Epoch not shifted": "unproved (searched): jde before/after every call; in the model `epoch -= tau` rebinds a new value by construction",
     "auxiliary (tighter than the property text): returned place within 0.002 deg of the apparent place rebuilt with independently written aberration/FK5 formulas and the library's nutation": "unproved (searched), key planet-apparent-place",
@@ -52,7 +53,8 @@ CLAUSES = {
 
 
 def proof_files(tier):
-    return ["C09_spec.v", "C09_minor.v", "C09.v"]
+    return (["C09_spec.v", "C09_minor.v", "C09_A_defs.v", "C09_A_tac.v", "C09_geo.v"]
+            + ["C09_lt_%s.v" % p for p in PLANETS] + ["C09.v"])
 
 
 # ----------------------------------------------------------------------------------------------
@@ -393,7 +395,7 @@ def cases(rng, tier):
     quick = tier == "quick"
     cs = []
     for p in PLANETS:
-        for _ in range(1 if quick else 6):
+        for _ in range(1 if quick else 3):
             cs.append("%s.geocentric_position(Epoch(%r))" % (p, gen_jde(rng)))
     cs.append("Venus.geocentric_position(Epoch(1992, 12, 20.0))")
     cs.append("Neptune.geocentric_position(Epoch(1992, 12, 20.0))")
